@@ -103,9 +103,38 @@ def _gen(elt: ast.AST, target: ast.AST, it: ast.AST, conds: list) -> ast.Generat
     return ast.GeneratorExp(elt=elt, generators=[ast.comprehension(target=copy.deepcopy(target), iter=copy.deepcopy(it), ifs=ifs, is_async=0)])
 
 
+def _same_call_shape(a: ast.stmt, b: ast.stmt) -> Optional[ast.stmt]:
+    """`if c: f(x, A) else: f(x, B)`  ->  f(x, A if c else B)   (one differing argument; returns a template)"""
+    if not (isinstance(a, ast.Expr) and isinstance(b, ast.Expr) and isinstance(a.value, ast.Call) and isinstance(b.value, ast.Call)):
+        return None
+    ca, cb = a.value, b.value
+    if ast.dump(ca.func) != ast.dump(cb.func) or len(ca.args) != len(cb.args) or [k.arg for k in ca.keywords] != [k.arg for k in cb.keywords]:
+        return None
+    diff = [i for i, (x, y) in enumerate(zip(ca.args, cb.args)) if ast.dump(x) != ast.dump(y)]
+    kdiff = [i for i, (x, y) in enumerate(zip(ca.keywords, cb.keywords)) if ast.dump(x.value) != ast.dump(y.value)]
+    if len(diff) + len(kdiff) != 1:
+        return None
+    return a
+
+
+def _merge_ifelse_calls(s: ast.stmt) -> ast.stmt:
+    if isinstance(s, ast.If) and len(s.body) == 1 and len(s.orelse) == 1 and _same_call_shape(s.body[0], s.orelse[0]) is not None:
+        ca, cb = s.body[0].value, s.orelse[0].value  # type: ignore[attr-defined]
+        new = copy.deepcopy(ca)
+        for i, (x, y) in enumerate(zip(ca.args, cb.args)):
+            if ast.dump(x) != ast.dump(y):
+                new.args[i] = ast.IfExp(test=copy.deepcopy(s.test), body=copy.deepcopy(x), orelse=copy.deepcopy(y))
+        for i, (x, y) in enumerate(zip(ca.keywords, cb.keywords)):
+            if ast.dump(x.value) != ast.dump(y.value):
+                new.keywords[i].value = ast.IfExp(test=copy.deepcopy(s.test), body=copy.deepcopy(x.value), orelse=copy.deepcopy(y.value))
+        return ast.fix_missing_locations(ast.copy_location(ast.Expr(value=new), s))
+    return s
+
+
 def _rewrite_block(stmts: list) -> list:
     out: list = []
     i = 0
+    stmts = [_merge_ifelse_calls(x) for x in stmts]
     while i < len(stmts):
         s = stmts[i]
         # recurse first
